@@ -21,6 +21,9 @@ type Sent struct {
 type Comm struct {
 	Out  []*Sent
 	Hook func(s *Sent) // called at send time (harness records the node state)
+	// Fail, if set, decides per message whether the transport reports an error (after the message went out to its
+	// first recipients: it stays recorded as sent)
+	Fail func(s *Sent) bool
 }
 
 func (c *Comm) SendConsensusMessage(ctx context.Context, recipients []primitives.MemberId, message *interfaces.ConsensusRawMessage) error {
@@ -28,6 +31,9 @@ func (c *Comm) SendConsensusMessage(ctx context.Context, recipients []primitives
 	c.Out = append(c.Out, s)
 	if c.Hook != nil {
 		c.Hook(s)
+	}
+	if c.Fail != nil && c.Fail(s) {
+		return ErrStub
 	}
 	return nil
 }
@@ -94,6 +100,7 @@ type ProposalCall struct {
 }
 
 type BlockUtils struct {
+	PanicTag byte // ValidateBlockProposal panics (a bug of the consumer's validator) on a block with this tag (0: never)
 	Lenient bool // ValidateBlockProposal approves a proposal whose block is missing
 	Validations []*ProposalCall
 	Requests    []*ProposalCall
@@ -118,6 +125,9 @@ func (u *BlockUtils) RequestNewBlockProposal(ctx context.Context, blockHeight pr
 // has the requested height and matches the hash.
 func (u *BlockUtils) ValidateBlockProposal(ctx context.Context, blockHeight primitives.BlockHeight, memberId primitives.MemberId, block interfaces.Block, blockHash primitives.BlockHash, prevBlock interfaces.Block) error {
 	b, _ := block.(*Block)
+	if b != nil && u.PanicTag != 0 && b.Tag == u.PanicTag {
+		panic("consumer validator: unexpected block content")
+	}
 	ok := false
 	if b != nil {
 		ok = b.ProposalOK && b.H == blockHeight && Commits(b, blockHash)
